@@ -41,6 +41,18 @@ func (p recvProp) Input(in interface{}) Sx { return recvInputSx(in.(recvIn)) }
 func (p recvProp) Key(inp interface{}) (string, bool) {
 	in := inp.(recvIn)
 	k := fmt.Sprintf("c%v sm%v w%d cut%d ws%v%v%v lg%v%v:", in.Component, in.SM, in.WFail, in.Cut, in.WS, in.Frag, in.PeerClose || in.PeerCloseNow, in.Logged, in.ErrWithData)
+	if in.LateRecv != "" || in.LogFailAt > 0 || in.NoErrH {
+		k += fmt.Sprintf("late%s lf%d ne%v:", in.LateRecv, in.LogFailAt, in.NoErrH)
+		if in.LateRecv != "" {
+			hist("ws:receiver-starts-after-the-connection-ended:" + in.LateRecv)
+		}
+		if in.LogFailAt > 0 {
+			hist("logger:log-refuses-writes")
+		}
+		if in.NoErrH {
+			hist("client:no-error-callback")
+		}
+	}
 	if len(in.WFails) > 0 || in.WFrom > 0 {
 		k += fmt.Sprintf("w%v+%d:", in.WFails, in.WFrom)
 		hist("fault:several-or-from")
@@ -55,7 +67,7 @@ func (p recvProp) Key(inp interface{}) (string, bool) {
 	st, nr := 0, 0
 	for _, it := range in.completeItems() {
 		k += it.T[:1]
-		if it.T == "serr" && it.Repl && !in.Component {
+		if it.T == "serr" && it.Repl {
 			k += "R"
 			hist("item:serr-handler-reconnects")
 		}
@@ -258,6 +270,25 @@ func (p recvProp) Oracle(inp interface{}, obs Sx) (string, string) {
 		}
 		return "", ""
 	}
+	if in.NoErrH {
+		// no error callback was given: there is nothing to call (and nothing may crash); the rest is as ever
+		if nerr != 0 {
+			return fmt.Sprintf("%d error callbacks although none was registered", nerr), "error-callbacks-none-registered"
+		}
+		nerr = nserr
+		if endedBy != "close" && endedBy != "handover" {
+			nerr++
+		}
+	}
+	if endedBy == "close" && in.Component {
+		// a component too reports a stream closed by the server as a disconnection (no error)
+		if ndisc != 1 {
+			return fmt.Sprintf("component, stream closed by the server: %d Disconnected events", ndisc), "disconnected-events-close-component"
+		}
+		if nerr != nserr {
+			return fmt.Sprintf("component, stream closed by the server: %d error callbacks (stream errors seen: %d)", nerr, nserr), "error-callbacks-close-component"
+		}
+	}
 	if endedBy == "close" && !in.Component {
 		// the server closed the stream: still a disconnection, but no error
 		if ndisc != 1 {
@@ -286,7 +317,7 @@ func (p recvProp) Oracle(inp interface{}, obs Sx) (string, string) {
 
 func init() {
 	register(recvProp{id: "C05", w: 8, gen: genC05,
-		rule: "random inbound histories (0-60 items over message/presence/iq of each type with varied content, <r/>, <a/>, features and other non-stanza elements, stream errors, stream close, rejected elements), client with SM on/off and component, read chunk sizes 1/7/unlimited, write faults on the answers (one write, several, or every write from some point on); histories around a stream error whose event handler leaves the connection alone or replaces it as a StreamManager does; the keepalive quit channel sampled whenever the receive goroutine enters a callback or a transport call; one history in seven read through the real XMPPTransport read path (traffic logger, buffered decoder) over a scripted net.Conn whose last bytes arrive together with the read error; one case in nine over the real WebSocket transport (loopback websocket server, one frame per element, frames up to 28 kB); distinct = role/sm/fault + item-kind sequence; non-trivial = >= 2 stanzas and (component or >= 1 <r/>)"})
+		rule: "random inbound histories (0-60 items over message/presence/iq of each type with varied content, <r/>, <a/>, features and other non-stanza elements, stream errors, stream close, rejected elements), client with SM on/off and component, read chunk sizes 1/7/unlimited, write faults on the answers (one write, several, or every write from some point on); histories around a stream error whose event handler leaves the connection alone or replaces it as a StreamManager does; the keepalive quit channel sampled whenever the receive goroutine enters a callback or a transport call; one history in seven read through the real XMPPTransport read path (traffic logger, buffered decoder) over a scripted net.Conn whose last bytes arrive together with the read error; one case in nine over the real WebSocket transport (loopback websocket server, one frame per element, frames up to 28 kB, single messages up to 210 kB); a receiver that starts only after a burst of 300-450 elements was sent and the connection ended, its answers written on the dead connection; a traffic log that refuses writes from some point on; a client without error callback; distinct = role/sm/fault + item-kind sequence; non-trivial = >= 2 stanzas and (component or >= 1 <r/>)"})
 }
 
 func genC05(r *rand.Rand, tier string) []interface{} {
@@ -390,6 +421,37 @@ func genC05(r *rand.Rand, tier string) []interface{} {
 		}
 		out = append(out, in)
 	}
+	// the component's loop: a stream error whose handler replaces the component's transport (Disconnect and Resume from
+	// inside the handler) - the old receiver leaves the new connection alone; a stream closed by the server is reported
+	for i := 0; i < n/40+3; i++ {
+		in := recvIn{Cut: -1, Component: true, Chunk: []int{0, 7}[r.Intn(2)]}
+		in.Items = genItems(r, r.Intn(6), false, true)
+		last := rItem{T: "serr", Tag: r.Intn(len(serrConds)), Repl: i%3 != 2}
+		if i%3 == 2 {
+			last = rItem{T: "close"}
+		}
+		last.render()
+		in.Items = append(in.Items, last)
+		in.Items = append(in.Items, genItems(r, r.Intn(4), false, true)...)
+		out = append(out, in)
+	}
+	// a traffic log that stops accepting writes (disk full, file gone) in the middle of the session: what is read from the
+	// healthy connection is still delivered (histories without <r/>: what a failing log does to Send is C08's subject)
+	for i := 0; i < n/25+3; i++ {
+		in := recvIn{Cut: -1, Logged: true, LogFailAt: 1 + r.Intn(6), SM: r.Intn(2) == 0, Chunk: []int{0, 7, 64}[r.Intn(3)]}
+		for _, it := range genItems(r, 2+r.Intn(10), false, false) {
+			if it.T != "r" {
+				in.Items = append(in.Items, it)
+			}
+		}
+		out = append(out, in)
+	}
+	// a client created without an error callback: a connection loss or a stream error must not bring the process down
+	for i := 0; i < n/50+3; i++ {
+		in := recvIn{Cut: -1, NoErrH: true, SM: r.Intn(2) == 0}
+		in.Items = genItems(r, r.Intn(8), i%2 == 0, false)
+		out = append(out, in)
+	}
 	// the same loop over the real WebSocket transport (frames up to 28 kB)
 	nws := n / 8
 	for i := 0; i < nws; i++ {
@@ -406,6 +468,13 @@ func genC05(r *rand.Rand, tier string) []interface{} {
 			at := r.Intn(len(in.Items) + 1)
 			in.Items = append(in.Items[:at:at], append(wsify([]rItem{big}), in.Items[at:]...)...)
 		}
+		if i%8 == 4 {
+			// ... and one larger than that (35 to 210 kB): there is no bound on the size of an element on either transport
+			huge := rItem{T: "stanza", Kind: []int{0, 2}[r.Intn(2)], ID: 9500 + i, Deep: 5000 + r.Intn(25000)}
+			huge.render()
+			at := r.Intn(len(in.Items) + 1)
+			in.Items = append(in.Items[:at:at], append(wsify([]rItem{huge}), in.Items[at:]...)...)
+		}
 		if i%6 == 5 {
 			// a burst, and the websocket closed right behind it: the client is still reading when the close arrives;
 			// what was sent before the close was completely received and must still be routed
@@ -418,6 +487,25 @@ func genC05(r *rand.Rand, tier string) []interface{} {
 			}
 			in.Items = burst
 		}
+		out = append(out, in)
+	}
+	// a receiver that is far behind: a burst of 300-450 small elements with <r/> among them, the connection ends behind
+	// the last one, and only then does the receiver start. Its answers are written on a dead connection (each is
+	// attempted, none arrives); everything the server sent had been received and is still routed
+	nlate := 2
+	if tier == "thorough" {
+		nlate = 8
+	}
+	for i := 0; i < nlate; i++ {
+		in := recvIn{Cut: -1, WS: true, LateRecv: "write", SM: true, Inb: []int{0, 5}[r.Intn(2)]}
+		items := genItems(r, 300+r.Intn(150), false, false)
+		for k := range items {
+			if items[k].T == "stanza" && items[k].Var%len(textPool) >= 6 {
+				items[k].Var -= items[k].Var % len(textPool)
+				items[k].render()
+			}
+		}
+		in.Items = wsify(items)
 		out = append(out, in)
 	}
 	return out
